@@ -1,6 +1,6 @@
 #!/bin/sh
 # tools/seedcheck.sh <seed-dir-with-patch.diff> <prop> [prop...]  -- apply a seeded change to a scratch copy and run checks on it
-P=$1; shift
+P=$(cd "$1" && pwd); shift
 S=/var/tmp/pgf-seed-$$
 rm -rf $S && mkdir -p $S && rsync -a --exclude .git /repo/ $S/
 (cd $S && patch -p1 -s < $P/patch.diff) || { echo "patch failed"; exit 3; }
